@@ -34,7 +34,9 @@ EXPLANATION = (
     "SoftwareManager registry is consulted or popped without ever being populated, a package that shares its "
     "(port, protocol) with another shipped class cannot silently evict that class's dispatch entry (key-free test on "
     "install, a multi-valued table, or re-pointing on uninstall), and the node-level install/uninstall requests "
-    "delegate to the software manager. NOT decided: the number of ticks a restart/install "
+    "delegate to the software manager; R13.5 every call of the node's bulk start-up routine (the method that starts all "
+    "services and runs all applications) comes, on every path, after the store operating_state = ON, because Service.start and "
+    "Application.run refuse on a node that is not ON. NOT decided: the number of ticks a restart/install "
     "takes (counter arithmetic), conformance of arbitrary request sequences to a reference model (behavioural), and "
     "whether the handler reached past the gate does the right thing."
 )
@@ -1121,6 +1123,57 @@ def r13_4(ctx: Ctx) -> None:
                        "removal is left entirely to SoftwareManager.uninstall" if not own else f"removes from {own} itself")
 
 
+def r13_5(ctx: Ctx) -> None:
+    """Service.start / Application.run refuse while their node is not ON (R13.2's gate), so the node's bulk start-up is a no-op
+    unless the node has been switched ON before it runs: software 'follows its lifecycle under node power events' only then."""
+    ix = ctx.ix
+    ctx.rule("R13.5", "the node switches itself ON before it starts its software: every call of the bulk start-up routine is "
+                      "preceded on every path by the store operating_state = ON")
+    node = ix.cls("Node")
+    starters = []
+    for m in node.methods.values():
+        if isinstance(m.node, ast.Lambda):
+            continue
+        for loop in ast.walk(m.node):
+            if isinstance(loop, ast.For) and unparse(loop.iter).startswith(("self.services", "self.applications")):
+                if any(isinstance(c, ast.Call) and isinstance(c.func, ast.Attribute) and c.func.attr in ("start", "run")
+                       for c in ast.walk(loop)):
+                    starters.append(m)
+                    break
+    if not starters:
+        raise AnalysisError("R13.5: no Node method that starts all services/applications found")
+    gate = ix.method("Service.start")
+    if not any(isinstance(c, ast.Call) and call_name(c) == "_can_perform_action" for c in ast.walk(gate.node)):
+        ctx.ok("R13.5", ctx.key(gate, "start is not gated on the node's power state"), gate.loc(),
+               "Service.start no longer consults the node's state: the order of start-up and switching ON is immaterial", trivial=True)
+        return
+    names = {m.name for m in starters}
+    n = 0
+    for c in [node] + list(ix.subclasses(node)):
+        for m in c.methods.values():
+            if isinstance(m.node, ast.Lambda) or m in starters:
+                continue
+            sites = [x for x in ast.walk(m.node) if isinstance(x, ast.Call) and isinstance(x.func, ast.Attribute)
+                     and x.func.attr in names and unparse(x.func.value) == "self"]
+            if not sites:
+                continue
+            g = CFG(m.node)
+            on_stores = {x for x in g.nodes if x.kind == "stmt" and isinstance(x.ast, ast.Assign)
+                         and any(unparse(t) == "self.operating_state" for t in x.ast.targets)
+                         and unparse(x.ast.value).endswith(".ON")}
+            for call in sites:
+                tgt = [x for x in g.nodes if x.kind in ("stmt", "cond") and any(y is call for y in ast.walk(x.ast if x.kind == "stmt" else x.expr_root() or ast.Pass()))]
+                if not tgt:
+                    raise AnalysisError(f"R13.5: call site of {call.func.attr} not found in the CFG of {m.short}")
+                p = g.path_avoiding(tgt, lambda e: False, blocked_nodes={x.id for x in on_stores})
+                n += 1
+                ctx.record("R13.5", ctx.key(m, f"ON is stored before {call.func.attr}()"), m.loc(call), p is None,
+                           "the node is ON when its software is told to start" if p is None else
+                           "the start-up routine can run while the node is not yet ON: Service.start / Application.run refuse, the "
+                           "software stays down on a node that then turns ON", path_text(p))
+    ctx.floor("R13.5", "call sites of the bulk start-up routine", n, 2)
+
+
 def check(ctx: Ctx) -> None:
     svc = _expect_enum(ctx.ix, "ServiceOperatingState", SVC_STATES)
     app = _expect_enum(ctx.ix, "ApplicationOperatingState", APP_STATES)
@@ -1129,3 +1182,4 @@ def check(ctx: Ctx) -> None:
     r13_2(ctx, uni)
     r13_3(ctx, uni)
     r13_4(ctx)
+    r13_5(ctx)
